@@ -81,6 +81,7 @@ type Worker struct {
 	retained       int // decision frames currently on the solver stack
 	restarted      bool
 	runsInInstance int
+	raceAnalyzed   int // race query: analysed paths of the current instance (capped)
 
 	Stats Stats
 }
@@ -142,6 +143,8 @@ type InstanceResult struct {
 	Funcs           map[string]bool
 	MaxDepth        int
 	Wall            float64
+	RaceQueries     int
+	RaceTime        float64
 	AssertsProved   int
 	AssertsConcrete int
 }
@@ -192,6 +195,8 @@ type Run struct {
 	visibleOps         int
 	inHook             bool
 	schedOff           bool
+	race               *raceState
+	raceOff            bool
 	tmpCount           int
 	ownParams          bool
 	switches           int
@@ -199,6 +204,8 @@ type Run struct {
 	outcome         string // "" running, ok, violation, infeasible, inconclusive
 	violation       *Violation
 	inconc          string
+	raceQueries     int
+	raceTime        float64
 	provedAsserts   int
 	concreteAsserts int
 	lastPos         string
@@ -224,6 +231,7 @@ func (w *Worker) ExploreInstance(fn *ssa.Function, params map[string]int, concre
 	w.dec = nil
 	w.retained = 0
 	w.runsInInstance = 0
+	w.raceAnalyzed = 0
 	seenViol := map[string]bool{}
 	for {
 		if w.Lim.MaxPaths > 0 && res.Paths >= w.Lim.MaxPaths {
@@ -238,6 +246,8 @@ func (w *Worker) ExploreInstance(fn *ssa.Function, params map[string]int, concre
 		res.Paths++
 		res.Steps += r.steps
 		res.AssertsProved += r.provedAsserts
+		res.RaceQueries += r.raceQueries
+		res.RaceTime += r.raceTime
 		res.AssertsConcrete += r.concreteAsserts
 		for k := range r.funcs {
 			res.Funcs[k] = true
@@ -333,6 +343,13 @@ func (r *Run) describePath() []string {
 	return out
 }
 
+func shortFn(s string) string {
+	if i := strings.LastIndex(s, "/"); i >= 0 {
+		return s[i+1:]
+	}
+	return s
+}
+
 func shortSite(s string) string {
 	if i := strings.LastIndex(s, "/"); i >= 0 {
 		return s[i+1:]
@@ -383,9 +400,35 @@ func (w *Worker) runOnce(fn *ssa.Function, params map[string]int, concreteInputs
 		}
 		r.killAll()
 	}()
+	if params["race"] == 1 && concreteInputs == nil && w.raceAnalyzed < 12 {
+		r.raceInit()
+	}
 	r.callFunction(g, nil, fn, nil)
 	if r.outcome == "" {
 		r.outcome = "ok"
+		if r.race != nil && w.raceAnalyzed < 12 {
+			w.raceAnalyzed++
+			findings, nq, secs, problem := r.analyzeRaces(400)
+			r.raceQueries, r.raceTime = nq, secs
+			if problem != "" {
+				r.outcome = "inconclusive"
+				r.inconc = problem
+			} else if len(findings) > 0 {
+				f := findings[0]
+				v := &Violation{Kind: "race", Label: fmt.Sprintf("unsynchronised conflicting accesses: %s (%s) and %s (%s)", f.A, shortFn(f.FuncA), f.B, shortFn(f.FuncB)), Site: f.A, Func: f.FuncA, Tags: map[string]string{}}
+				for _, x := range findings {
+					v.Trace = append(v.Trace, x.A+" <-> "+x.B)
+				}
+				m := r.currentModelOrSolveSafe()
+				memo := map[*sym.Term]uint64{}
+				for _, in := range r.inputs {
+					v.Inputs = append(v.Inputs, InputVal{Label: in.label, Name: in.t.Name, Width: int(in.t.W), Value: sym.Eval(in.t, m, memo)})
+				}
+				v.Choices = append(v.Choices, r.choices...)
+				r.violation = v
+				r.outcome = "violation"
+			}
+		}
 	}
 	return r
 }
